@@ -287,3 +287,7 @@ def run(ctx):
                               'which ignores the mask, so masked elements enter the result'))
     ctx.assumptions += ['numpy: ndarray/MaskedArray reducers accept axis= and keepdims=; numpy.apply_along_axis keeps the other axes in place',
                         'frozen table of mask-dropping numpy conversions (calibrated in the thorough tier)']
+    # ---- R-PASSMASK: variables the string forms pass through keep their mask
+    from .. import lints as _lp
+    ctx.rule('R-PASSMASK', 'variables that an operation passes through unchanged keep their mask: the converter copy does not fill an in-memory masked target')
+    _lp.converter_pass_through(ctx, 'R-PASSMASK', [('core/_functions.py', 'reduce_dim'), ('core/_functions.py', 'convolve_dim')])
